@@ -578,6 +578,27 @@ pub fn replay(case: &J) -> Vec<Violation> {
                 }
             }
         }
+        "pair (spanish layer)" => {
+            if let Some(sp) = spanish_converter() {
+                let e2 = build_env_with(sp);
+                // `from` may be any key of the unit (the key check) or its symbol
+                let from = case["from"].as_str().unwrap_or("");
+                let i = e2.units.iter().position(|u| u.symbol() == from).or_else(|| e2.conv.find_unit(from).and_then(|f| e2.units.iter().position(|u| u.symbol() == f.symbol())));
+                let j = e2.units.iter().position(|u| u.symbol() == case["to"].as_str().unwrap_or(""));
+                if let (Some(i), Some(j)) = (i, j) {
+                    if e2.units[i].physical_quantity == e2.units[j].physical_quantity {
+                        check_pair(&e2, i, j, num(&case["value"]), &mut out, &mut local);
+                        for key in keys(&e2.units[i]) {
+                            let r = e2.conv.convert(ConvertValue::Number(1.0), ConvertUnit::Key(&key), ConvertTo::Unit(ConvertUnit::Unit(&e2.units[j])));
+                            let d = e2.conv.convert(ConvertValue::Number(1.0), ConvertUnit::Unit(&e2.units[i]), ConvertTo::Unit(ConvertUnit::Unit(&e2.units[j])));
+                            if format!("{:?}", r.map(|x| x.0)) != format!("{:?}", d.map(|x| x.0)) {
+                                out.push(Violation::new("a key of a unit converts differently from the unit", format!("key {key:?}"), case.clone()));
+                            }
+                        }
+                    }
+                }
+            }
+        }
         "triple" => {
             if let (Some(a), Some(b), Some(c)) = (find(case["from"].as_str().unwrap_or("")), find(case["via"].as_str().unwrap_or("")), find(case["to"].as_str().unwrap_or(""))) {
                 check_triple(&env, a, b, c, num(&case["value"]), &mut out, &mut local);
